@@ -18,6 +18,7 @@ def main(tier, seed, replay):
         tr = k.validate_profile("core", 150)
         k.validate_profile("rates", 100)
         k.validate_profile("split", 60)
+        k.validate_profile("every", 60)      # TickPolicy::EveryFrame: the plugin's own increment_tick drives the tick
         k.validate_profile("vis_black", 60)
         k.validate_profile("vis_white", 60)
         k.model_check("MC_Rel", mc_consts(ops=3, **REL), inv)
@@ -49,6 +50,7 @@ def main(tier, seed, replay):
         k.validate_profile("rates", 2000)
         k.validate_profile("split", 1500)
         k.validate_profile("timeout", 1000)
+        k.validate_profile("every", 1000)
         k.validate_profile("vis_black", 1500)
         k.validate_profile("vis_white", 1500)
         k.model_check("MC_Rel", mc_consts(ops=5, **REL), inv, timeout=3000)
